@@ -63,7 +63,7 @@ results = {}
 try:
     for p in [prop] + others:
         t0 = time.time()
-        e2 = dict(os.environ, VERIF_SEED=os.environ.get("VERIF_SEED", "1"), VERIF_REPO=RUNREPO)
+        e2 = dict(os.environ, VERIF_SEED=os.environ.get("VERIF_SEED", "1"), VERIF_REPO=RUNREPO, VERIF_EVIDENCE_DIR=os.path.join(ROOT, ".cache", "seed-evidence"))
         r = subprocess.run([sys.executable, os.path.join(ROOT, "tools", "vpcheck.py"), "--property", p, "--tier", os.environ.get("TIER", "quick")], cwd=ROOT, env=e2, stdout=subprocess.PIPE, stderr=subprocess.STDOUT, text=True)
         viol = [l for l in r.stdout.splitlines() if l.startswith("VIOLATION")]
         detail = ""
